@@ -60,6 +60,7 @@ const (
 	FBadLenSym      = "len-sym-286"          // fixed block using length symbol 286/287 (Arg 0/1)
 	FBadDistSym     = "dist-sym-30"          // fixed block using distance symbol 30/31
 	FHLIT           = "hlit-30"              // HLIT field 30 or 31 (Arg 0/1)
+	FRawDistLens    = "raw-dist-lens"        // the distance code lengths are exactly Lens (any multiset: complete, incomplete or over-subscribed); the block uses no match
 )
 
 // Fault is injected in block Block (forced to a compatible type if needed) at symbol index At.
@@ -68,6 +69,7 @@ type Fault struct {
 	Block int    `json:"block"`
 	At    int    `json:"at"`
 	Arg   int    `json:"arg"`
+	Lens  []int  `json:"lens,omitempty"` // FRawDistLens: code length of distance symbol i
 }
 
 // Stream is a list of blocks; the last one is final.
@@ -545,6 +547,13 @@ func buildHuffman(w *bitw, out *[]byte, b BlockSpec, fin uint32, f *Fault, res *
 			at = len(syms) - 1
 		}
 	}
+	if fk == FRawDistLens {
+		for i := range syms {
+			if syms[i].lit < 0 {
+				syms[i] = sym{lit: int('a')}
+			}
+		}
+	}
 	// faults that need a particular symbol at position 'at'
 	switch fk {
 	case FDistTooFar, FUnassignedDist, FNoDistCode, FBadDistSym, FIncompleteDist:
@@ -611,6 +620,13 @@ func buildHuffman(w *bitw, out *[]byte, b BlockSpec, fin uint32, f *Fault, res *
 			}
 		}
 		switch {
+		case fk == FRawDistLens:
+			distLens = make([]uint8, 30)
+			for i, l := range f.Lens {
+				if i < 30 && l >= 0 && l <= 15 {
+					distLens[i] = uint8(l)
+				}
+			}
 		case fk == FNoDistCode:
 			distLens = make([]uint8, 30)
 		case fk == FIncompleteDist:
@@ -1010,7 +1026,7 @@ func writeDynHeader(w *bitw, b BlockSpec, litLens, distLens []uint8, fk string, 
 	switch fk {
 	case FRepeatFirst, FRunPast, FHLIT:
 		return true
-	case FOverLit, FOverDist:
+	case FOverLit, FOverDist, FRawDistLens:
 		res.FaultBit = hdrStart
 		res.FaultDone = true
 	}
